@@ -63,6 +63,24 @@ CHECKS = {
     technique="symbolic execution of all resolvers with symbolic caller registers and CPUID results: store set, dependency set of the stored pointer, register preservation decided with z3; 2-safety CBMC harnesses for context independence (when present)",
     text="Shows the structural facts thread-safety rests on: each resolver's only store outside its stack is one aligned 8-byte store to its dispatch cell, the stored value and the control flow depend on CPUID/XGETBV results only, all caller registers are preserved; kernels write only caller-declared memory (C05).",
     note="Interleavings themselves are not explored (argued from the established facts). Levels 1-3/level buffers outside."),
+ "C19": dict(
+    engine="cbmc-c", category="model_checking", design_ref="DESIGN.md §5b C19",
+    technique="CBMC bounded model checking of isal_write_gzip_header/isal_write_zlib_header/isal_read_gzip_header/isal_read_zlib_header and the header path of isal_inflate against an independent RFC 1952/1950 layout producer+parser; field values and payload bytes symbolic, sizes and split points swept",
+    text="Writers: for all scalar field values (symbolic) and small optional fields the emitted bytes equal the RFC layout, too-small output returns the required size and touches nothing. Readers: on spec-generated and writer-generated headers, one-shot and at "
+         "every two-chunk split, the same fields are recovered and next_in stops at the first deflate byte; undersized buffers give the documented overflow code and resume; on arbitrary bytes (<= 16) the verdict equals the independent parser's, no out-of-bounds access.",
+    note="Bounds: name/comment/extra <= 4 bytes, arbitrary headers <= 16 bytes. Trusted: cbmc, spec/rfc1950_1952.h. Known findings (not repaired): isal_inflate loses gzip/zlib header parse state between calls; gz_hdr.hcrc partial value after a chunked read. Fixed: zlib DICTID byte order."),
+ "C11": dict(
+    engine="cbmc-c", category="model_checking", design_ref="DESIGN.md §5b C11",
+    technique="CBMC on the trailer verification paths of isal_inflate (check_gzip_checksum / check_zlib_checksum / ISAL_CHECKSUM_CHECK re-entry / finalize_adler32) from an arbitrary decoder state, and on write_trailer; bit-buffer, saved bytes, input, running checksum and length symbolic; the three sizes swept",
+    text="Verifier: from an arbitrary state (symbolic bit buffer, saved bytes, remaining input, running crc/adler, total_out) isal_inflate reports ISAL_DECOMP_OK iff the assembled trailer equals crc||isize (LE) resp. Adler-32 (BE); too few bytes leave state CHECKSUM_CHECK with all bytes saved, "
+         "and the continuation call gives the same verdict. Producer: write_trailer emits crc||isize / Adler from any bit-buffer fill. The meaning of the checksum functions themselves is C04.",
+    note="Delivered bytes are abstracted by the symbolic running checksum/length (end-to-end corruption of Huffman bodies needs whole inflate: out of reach). Producer-side checksums for whole streams are asserted in the C01/C07 harnesses."),
+ "C09": dict(
+    engine="cbmc-c", category="model_checking", design_ref="DESIGN.md §5b C09",
+    technique="CBMC on erasure_code/ec_base.c: gf_invert_matrix over ALL matrices with entries in a subfield (cofactor determinant + product oracle), generator formulas at symbolic (i,j), recovery with a symbolic erasure pattern through the real inversion",
+    text="Inversion: for every n x n matrix over GF(16) (n=2), GF(4) (n=3), GF(2) (n<=4): ret in {0,-1}, ret==0 iff det != 0, A*out = out*A = I. Generators: identity top block, cauchy[i][j]=inv(i^j), rs[i][j]=(2^(i-k))^j for symbolic (i,j) and (m,k) up to (256,10)/(32,16). "
+         "Recovery: for concrete (m,k) <= (9,3)/(8,4) (thorough (12,6)) and k symbolic strictly increasing survivors, the decode matrix built as the example does is invertible and inv*B = I (Cauchy; Vandermonde on documented-safe pairs).",
+    note="Inversion over all of GF(2^8) is undecided (900 s, 5 back ends) and outside; subfield entries exercise every pivot/swap/singular pattern with real field arithmetic. Larger recovery instances use C12's lemmas to replace gf_mul/gf_inv by the specification."),
 }
 
 NOT_YET = {}
